@@ -1510,7 +1510,7 @@ def run(chk: core.Check):
             il_wrong += 1
             j = next(j for j, (a, b) in enumerate(zip(real, expected)) if a != b)
             chk.fail(
-                f"generation #{j} for {FACTS[real[j][0]]['label']}: hooks of registrations {real[j][1:]} ran, the registrations in force at that moment "
+                f"generation #{j} for {FACTS[real[j][0]]['label']}: hooks of registrations {real[j][1]} ran, the registrations in force at that moment "
                 f"whose own filters select it are {expected[j][1]}",
                 {"events": events},
             )
@@ -1558,7 +1558,7 @@ def replay(payload) -> int:
             expected = interleaved_expected(inp["events"])
             print("events", inp["events"])
             for j, (a, b) in enumerate(zip(real, expected)):
-                print(f"  generation #{j} {FACTS[a[0]]['label']}: ran {a[1:]}, in force and selecting it {b[1]}" + ("   <-- differs" if a != b else ""))
+                print(f"  generation #{j} {FACTS[a[0]]['label']}: ran {a[1]}, in force and selecting it {b[1]}" + ("   <-- differs" if a != b else ""))
             print("->", "FAILS" if real != expected else "passes")
         if isinstance(inp, dict) and "auth_registrations" in inp:
             abad = auth_oracle_check(inp["auth_registrations"])
